@@ -218,7 +218,25 @@ def run(ctx):
         for ck in fx.find(r"distinfo::Line::from_bytes::\{closure#\d+\}"):
             n += bytews_sites(ctx, ck, rule="D2-BYTEWS")
         # field loop: which field index triggers which effect
-        lname = {i: body.local_name(i) for i in range(len(body.f["locals"]))}
+        # reader state by role: the locals that end up in Line::Checksum(digest, PATH, VALUE), the String parsed as the
+        # keyword/digest name (ACTION), and the integer counter compared with constants (FIELD)
+        lname = {}
+        for p_ in ret_paths(paths):
+            a_ = agg_variant(p_.end[1])
+            if a_ and a_[0] == LINE and a_[1] == "Checksum":
+                for t_, role in ((a_[2][1], "path"), (a_[2][2], "value")):
+                    if isinstance(t_, tuple) and t_[0] in ("havoc", "mutated"):
+                        lname[t_[1]] = role
+            for e_ in p_.calls("Digest as std::str::FromStr>::from_str"):
+                for s_ in subterms(e_.args[0]):
+                    if s_[0] in ("havoc", "mutated") and body.f["locals"][s_[1]]["ty"] == "std::string::String":
+                        lname[s_[1]] = "action"
+        for p_ in paths:
+            for c_ in p_.conds():
+                t_ = c_.term
+                if isinstance(t_, tuple) and t_[0] == "binop" and t_[1] == "Eq" and isinstance(t_[2], tuple) and t_[2][0] == "havoc" and const_int(t_[3]) is not None \
+                        and body.f["locals"][t_[2][1]]["ty"] in ("i32", "usize", "u32", "i64", "u8", "u64", "isize"):
+                    lname[t_[2][1]] = "field"
         eff = {}
         for p in paths:
             if p.end[0] != "back":
